@@ -25,6 +25,9 @@ import (
 
 var c04Policies = []string{"roundRobin", "random", "weightedRandom", "ipHash", "headerHash", ""}
 
+// c04TwoTags: the pool selects instances carrying tag t OR tag u (an instance with both must count once)
+var c04TwoTags = false
+
 func c04SpecYAML(policy string, urls []string, weights []int, tags bool) string {
 	var b strings.Builder
 	b.WriteString("name: proxy\nkind: Proxy\npools:\n- servers:\n")
@@ -37,7 +40,9 @@ func c04SpecYAML(policy string, urls []string, weights []int, tags bool) string 
 	if policy != "" {
 		fmt.Fprintf(&b, "  loadBalance:\n    policy: %s\n    headerHashKey: X-Key\n", policy)
 	}
-	if tags {
+	if tags && c04TwoTags {
+		b.WriteString("  serverTags: [t, u]\n")
+	} else if tags {
 		b.WriteString("  serverTags: [t]\n")
 	}
 	return b.String()
@@ -129,6 +134,7 @@ func TestVerifC04(t *testing.T) {
 			run := func(c *mc.Ctx) {
 				defer vrand.Set(nil)
 				wc := weightCfgs[c.Choose(len(weightCfgs), "weights")]
+				c04TwoTags = c.Choose(2, "pool-selects-two-tags") == 1
 				urls := c04URLs("s", n)
 				var ws []int
 				wmap := map[string]int{}
@@ -214,6 +220,8 @@ func TestVerifC04(t *testing.T) {
 						add("d0", []string{"t"}, 0, true)
 						add("d1", nil, 3, false)
 						add("d2", []string{"t"}, 0, true)
+						add("d3", []string{"u", "t"}, 0, true)
+						add("d4", []string{"u"}, 0, c04TwoTags)
 					}
 					p.mainPool.useService(inst)
 					sort.Strings(dl)
